@@ -1,4 +1,5 @@
 CONSTANTS
+  Devs = {}
   Groups = {"data", "open", "ns", "pipe"}
   Drivers = {"iour", "poll", "iour_blk"}
   MaxOps = 3
@@ -24,4 +25,4 @@ CONSTANTS
   PVWBufs <- PVW_Narrow
   PVRBufs <- PVR_Narrow
 SPECIFICATION Spec
-INVARIANTS PathsAgreeModuloKnown DevOnlyWhereNamed Sanity
+INVARIANTS PathsAgree DevOnlyWhereNamed Sanity
